@@ -81,3 +81,33 @@ Example C15_base_named_step :
   In cur Mpath.Proofs.C15.ex_fields /\
   allowed deps base_valid_fields BP_Input cur cur.
 Proof. exact Mpath.Proofs.C15.C15_deviation_base_step. Qed.
+
+(** the fields OFFERED at the root are exactly the declared root fields that
+    are not blocked (Proofs/C15b.v; [available_fields] models
+    getAvailableFieldsForValue, [offered_root] what the root part offers for a
+    current step).  Before repair 001cf94 a blocked step declared optional
+    (`s2?: {…}`) stayed offered: the last conjunct of the example computes what
+    the old comparison gave. *)
+From Mpath.Model Require Import Types Cue Validate.
+From Mpath.Proofs Require C15b.
+Import Mpath.Proofs.C15b.
+
+Theorem C15_available_fields_exact :
+  forall (v : cty) (blocked l : list str), available_fields v blocked = Some l -> exists u : cty, listed_value v = Some u /\ (forall f : str, In f l <-> (exists fld : str, In fld (field_texts u) /\ str_eqb fld BP_Dependencies = false /\ ~ In (strip_quotes (clean_field_name fld)) blocked /\ clean_field_name fld = f)).
+Proof. exact Mpath.Proofs.C15b.available_fields_exact. Qed.
+Print Assumptions C15_available_fields_exact.
+
+Theorem C15_available_fields_minus_blocked :
+  forall (v : cty) (blocked l0 l : list str), available_fields v [] = Some l0 -> available_fields v blocked = Some l -> forall f : str, In f l <-> In f l0 /\ ~ In (strip_quotes f) blocked.
+Proof. exact Mpath.Proofs.C15b.available_fields_minus_blocked. Qed.
+Print Assumptions C15_available_fields_minus_blocked.
+
+Theorem C15_offered_root :
+  forall (schema : cty) (cur : list ascii) (bl l : list str), cur <> [] -> blocked_root_fields schema cur = Ok bl -> offered_root schema cur = Ok (Some l) -> forall f : str, In f l <-> In f (root_fields schema) /\ ~ In (strip_quotes f) bl.
+Proof. exact Mpath.Proofs.C15b.C15_offered_root. Qed.
+Print Assumptions C15_offered_root.
+
+Theorem C15_offered_example :
+  root_fields ex_schema = map bs ["input"; "s1"; "s2"; "s3"] /\ blocked_root_fields ex_schema (bs "s3") = Ok (map bs ["s3"; "s2"]) /\ offered_root ex_schema (bs "s3") = Ok (Some (map bs ["input"; "s1"])) /\ map clean_field_name (filter (fun fld : str => negb (str_eqb fld BP_Dependencies) && negb (str_mem (strip_quotes fld) (map bs ["s3"; "s2"]))) (field_texts ex_schema)) = map bs ["input"; "s1"; "s2"].
+Proof. exact Mpath.Proofs.C15b.C15_offered_example. Qed.
+Print Assumptions C15_offered_example.
